@@ -220,13 +220,17 @@ def run(ctx):
     # ---------------------------------------------------------------- (X) observable level: identity between observables
     dc = []
     nobs = 60 if quick else 600
-    for i in range(nobs):
+    nroot = 18 if quick else 150
+    for i in range(nobs + nroot):
         T = rng.randint(6, 14)
         kind = rng.choice(["positive", "positive", "cosh"])
+        fam = rng.choice(["deriv", "deriv", "second_deriv", "second_deriv", "m_eff", "m_eff", "plateau", "plateau"])
+        if i >= nobs:
+            # root-finder variants: even and odd T alike (the midpoint T/2 is a half-integer for odd T)
+            fam, kind, T = "root", "cosh", [7, 8, 9, 10, 11, 13][i % 6]
         obs = base_obs(T, kind)
         pat = tuple(rng.random() < 0.85 for _ in range(T))
         corr = _mk_corr(pe, obs, pat)
-        fam = rng.choice(["deriv", "deriv", "second_deriv", "second_deriv", "m_eff", "m_eff", "root", "plateau", "plateau"])
         try:
             if fam in ("deriv", "second_deriv", "m_eff"):
                 v = rng.choice({"deriv": DERIV["deriv"] + ["log"], "second_deriv": DERIV["second_deriv"] + ["log"], "m_eff": list(MEFF)}[fam])
@@ -255,9 +259,7 @@ def run(ctx):
                 rt = "tol30"
                 name = "%s('%s') at t=%d" % (fam, v, t)
             elif fam == "root":
-                v = rng.choice(["cosh", "periodic", "sinh"])
-                if kind != "cosh":
-                    continue
+                v = ["cosh", "periodic", "sinh"][(i // 6) % 3]
                 res = corr.m_eff(v)
                 ts = [t for t in range(T - 1) if res.content[t] is not None and not (v == "sinh" and t in (T / 2, T / 2 - 1))]
                 if not ts:
